@@ -81,6 +81,7 @@ pub enum FKind {
     Linear,
 }
 
+#[derive(Clone)]
 pub struct RealP {
     pub name: String,
     pub dom: Vec<Range<f64>>,
@@ -138,6 +139,7 @@ impl KnownOptimumProblem for RealP {
     }
 }
 
+#[derive(Clone)]
 pub struct BinP {
     pub dim: usize,
     pub instr: Arc<Instr>,
@@ -175,6 +177,7 @@ impl KnownOptimumProblem for BinP {
 }
 
 /// Symmetric TSP on n cities with an explicit distance matrix.
+#[derive(Clone)]
 pub struct TspP {
     pub n: usize,
     pub dist: Vec<Vec<f64>>,
@@ -243,6 +246,7 @@ impl KnownOptimumProblem for TspP {
 }
 
 /// Problem whose solutions are opaque tags; objective values are assigned by the harness.
+#[derive(Clone)]
 pub struct TagP;
 impl Problem for TagP {
     type Encoding = u32;
